@@ -36,13 +36,15 @@ def random_histories(ctx, cases, n, lo, hi):
     return out
 
 
-def explore(ctx, verdict, mode, cfg, timeout=1500):
+def explore(ctx, verdict, mode, cfg, timeout=1500, case_extra=None):
     out, r = vlib.model_a(ctx, "MCGeomOps", cfg, ["EDGE"], timeout=timeout)
     cases = out["EDGE"]
     cases.sort(key=lambda c: vlib.digest(c))
     rh = random_histories(ctx, cases, 3000 if ctx.quick else 20000, 6, 14)
     ctx.coverage_extra["random_histories"] = dict(count=len(rh), length="6..14")
     cases = cases + rh
+    if case_extra:
+        cases = [dict(c, **case_extra) for c in cases]
     # vacuity guard: every kind, layout and action of the configuration occurs in the replayed behaviours
     seen_ops, seen_kl = {}, set()
     for c in cases:
